@@ -260,6 +260,8 @@ def expand(args) -> Dict[str, Any]:
                 try:
                     for ev in e1 + e2s:
                         e2.apply(ev)
+                    if order >= mmx.factorial(e2.nready()):
+                        continue  # fewer ready sockets than operations (e.g. the manager had already dropped that connection)
                     e2.round(order, [])
                     e2.settle()
                     stats["pair_transitions"] = stats.get("pair_transitions", 0) + 1
